@@ -296,6 +296,12 @@ class Server(_Server_):
         )
         self.serializer = serializer
         delattr(self, 'id_to_local_proxy_obj')  # disable this
+        # Re-entrant, unlike the standard one: `create` runs the registered callable while
+        # it holds this lock, and code running inside the server (a constructor that calls
+        # `managed_list`, the finalizer of a proxy that the garbage collector reclaims
+        # at that moment) gets back into `create` / `incref` / `decref` in the same thread.
+        # With a plain lock that blocks the whole server for good.
+        self.mutex = threading.RLock()
 
     def _wrap_user_exc(self, exc):
         return RemoteException(exc)
